@@ -87,7 +87,16 @@ def run(ctx):
                                                     "first": first[i][:600], "other": strip(r)[:600]})
                 break
     # 3. one shared model, many goroutines (+ race detector)
-    shared = [{"op": "shared", "m": m, "workers": 8, "rounds": 3} for m in models[:40] + stable[:40]]
+    # the weighted graph of a model with a cycle that is not well-founded depends on Go's map order even sequentially
+    # (known finding K-WG-cycles, C05/C06): for such models it is built but left out of the comparison
+    def wg_stable(m):
+        try:
+            return not gs.degenerate(m) and (gs.well_founded(m) or not gs.cycle_info(m)["has_cycle"])
+        except Exception:
+            return False
+    shared = [{"op": "shared", "m": m, "workers": 8, "rounds": 3, "nowg": not wg_stable(m)} for m in models[:40] + stable[:40]]
+    ctx.count("shared_models_weighted_graph_compared", sum(1 for q in shared if not q["nowg"]))
+    ctx.count("shared_models_weighted_graph_skipped", sum(1 for q in shared if q["nowg"]))
     for q, r in zip(shared, ctx.impl(shared, seq=True)):
         if "r" not in r:
             ctx.violation("entry-point-abnormal", {"op": "shared", "model": q["m"], "impl": {k: r.get(k) for k in ("panic", "timeout", "bad")}})
